@@ -197,8 +197,8 @@ func init() {
 			shapes[i] = shapeIdx(n)
 		}
 		bsz := 2
-		workers := []int{2}
-		bound := 1
+		workers := []int{2, 3}
+		bound := 2
 		maxITs := []int{1, 2}
 		cats := []string{"K1", "K2", "K4"}
 		if r.Tier == "thorough" {
